@@ -192,6 +192,9 @@ def run_case(case):
     Mconv = pf.convectionUpwindTerm(uf) if 'upwind' in tset else None
     Mbeta = pf.linearSourceTerm(pf.CellVariable(m, beta.copy())) if beta is not None else None
     nsteps = int(rng.integers(1, 7))
+    vec_first = pf.constantSourceTerm(pf.CellVariable(m, 0.0)) if rng.random() < 0.4 else None
+    if vec_first is not None:
+        cov['source_vector_reused_first_in_list'] = 1
     rows = interior_index(g.dims)
     unequal = [k for k in spec['periodic'] if abs(g.w[k][0] - g.w[k][-1]) > 1e-12 * max(g.w[k][0], g.w[k][-1])]
     dts = []
@@ -252,6 +255,9 @@ def run_case(case):
                 terms.append(Mconv)
             if Mbeta is not None:
                 terms.append(Mbeta)
+            if vec_first is not None:
+                terms = [vec_first] + terms          # a (vanishing) source vector built once before the loop, first in every list
+            terms = gen.vary_terms(rng, terms)       # ... and some matrices handed over as csc / coo / lil
             spy = SpySolver()
             solve_with(pf, spy, phi, terms, default_path=bool(case['seed'][-1] % 2))
             Mx, b, x = spy.last
@@ -344,7 +350,7 @@ def floors(agg, tier):
         if agg['cov'].get('cases:' + cls, 0) < 20:
             out.append('cases:%s < 20' % cls)
     for k, need in (('bc:D', 50), ('bc:N0', 50), ('bc:periodic', 20), ('flow:uniform', 3), ('flow:radial', 3), ('flow:stream-walls', 10),
-                    ('flow:stream-open', 5), ('flow:axis', 10), ('terms:D', 10), ('terms:D+upwind', 10), ('extremal_dt_steps', 50), ('steps', 300), ('thin_grid', 50), ('geo:nano', 10), ('geo:offset', 20), ('geo:thinend', 10), ('flow:uniform-int', 5), ('periodic_flag:low', 10), ('periodic_flag:high', 10), ('time_unit:small', 30), ('time_unit:large', 20), ('value_edit_between_steps', 50),
+                    ('flow:stream-open', 5), ('flow:axis', 10), ('terms:D', 10), ('terms:D+upwind', 10), ('extremal_dt_steps', 50), ('steps', 300), ('thin_grid', 50), ('source_vector_reused_first_in_list', 100), ('geo:nano', 10), ('geo:offset', 20), ('geo:thinend', 10), ('flow:uniform-int', 5), ('periodic_flag:low', 10), ('periodic_flag:high', 10), ('time_unit:small', 30), ('time_unit:large', 20), ('value_edit_between_steps', 50),
                     ('bc_edit_between_steps:left', 5), ('bc_edit_between_steps:right', 5), ('bc_edit_between_steps:bottom', 5), ('bc_edit_between_steps:top', 5),
                     ('bc_edit_between_steps:back', 3), ('bc_edit_between_steps:front', 3)):
         if agg['cov'].get(k, 0) < need:
